@@ -93,6 +93,11 @@ func (g *Gen) Next() world.Event {
 				cur := w.Nodes[sh].Sched.Clone()
 				s.Base = cur.Base // only the built-in function prices change
 			}
+			if g.R.Intn(5) == 0 {
+				// entries the library does not know (a newer node configuration): still a valid schedule
+				s.BuiltIn["ESDTFutureOperation"] = uint64(1 + g.R.Intn(1000))
+				s.Base["FuturePerByte"] = uint64(g.R.Intn(3)) // may even be zero: it is not an entry of this library
+			}
 			if g.chance("p:sched-invalid") {
 				switch g.R.Intn(4) {
 				case 0:
